@@ -54,10 +54,21 @@ def observe(kw, chunks):
             outs += r[1]
     st = d.state()
     conn = st[7][0]
+    # what is still buffered can only be a suffix of what this connection received
+    delivered = b''.join(sc.EST_PREFIX[i][2] for i in range(len(sc.EST_PREFIX)) if sc.EST_PREFIX[i][0] == 'data') + \
+        b''.join(chunks)
+    left = bytes(conn[3])
+    # (after our own close Twisted stops reading, so it need not be a suffix of everything sent)
+    if len(left) > len(delivered) or (left and left not in delivered):
+        raise ForeignOctets(len(left), len(delivered))
     closed = conn[1] or conn[2]
     if closed:
         st[7][0] = conn[:3] + [b''] + conn[4:]
     return (outs, st), worst, d
+
+
+class ForeignOctets(Exception):
+    """the receive buffer holds octets this connection never received"""
 
 
 def cuts_of(stream, rng, thorough):
@@ -124,7 +135,10 @@ def run(ctx):
     distinct = set()
     worst = 0.0
     err_kinds = {}
+    foreign = 0
     for names, stream in sts:
+        if foreign >= 3:
+            break
         frames, err, rest = ref_deframe(stream)
         is_len_sweep = names and names[-1] == 'keepalive' and len(names) > 1 and names[1].startswith('<len=')
         is_type_sweep = names[0].startswith('<type=')
@@ -134,7 +148,17 @@ def run(ctx):
         base = None
         for chunks in cs:
             chunks = [c for c in chunks]
-            ob, wc, d = observe(kw, chunks)
+            try:
+                ob, wc, d = observe(kw, chunks)
+            except ForeignOctets as fo:
+                viol.append({'what': 'the receive buffer of a fresh connection holds %d unparsed octets after %d '
+                                     'were delivered: octets of another connection (messages are not taken from '
+                                     'this connection\'s stream alone)' % fo.args,
+                             'names': names, 'chunks': [c.hex() for c in chunks], 'known': None})
+                foreign += 1
+                if foreign >= 3:
+                    break
+                continue
             worst = max(worst, wc)
             n_eval += 1
             if wc > 2.0:
@@ -216,7 +240,7 @@ def run(ctx):
     # `step` ignores a disabled event exactly like the driver does.
     if not ctx.thorough and len(traces) > 700:
         traces = traces[:500] + ctx.rng.sample(traces[500:], 200)
-    runs, mism = sc.compare_traces(ctx, traces, per_shard=30)
+    runs, mism = ([], []) if foreign else sc.compare_traces(ctx, traces, per_shard=30)
     return {'evaluations': n_eval + len(traces), 'distinct': len(distinct),
             'rule': 'streams of valid/invalid messages (every type octet; length-field values: all 65536 in thorough, '
                     'boundaries+sample in quick; corrupt markers; truncated tails) x segmentations (one-shot, every '
